@@ -31,6 +31,8 @@ import (
 	"fmt"
 	"strings"
 	"testing"
+	"testing/synctest"
+	"time"
 
 	"github.com/baidu/go-lib/gotrack"
 
@@ -102,6 +104,71 @@ func c37emax(kind string) int {
 	return c37elicits[kind]
 }
 
+// ---- execution wrapper + connection-state prefixes ------------------------------------------------
+
+// c37run is h2run plus a clean end for executions that leave the server in an error GOAWAY:
+// bfe's writeGoAway sleeps 50 ms on the writer goroutine before closing the conn, and a bubble
+// must not end while a goroutine still sleeps. The clock is advanced ONLY here, after the
+// verdicts and after the connection was torn down - never between a flood frame and its oracle.
+func c37run(t *testing.T, body func(e *h2env)) {
+	h2run(t, nil, false, func(e *h2env) {
+		body(e)
+		e.teardown()
+		e.sleep(time.Second)
+	})
+}
+
+// connection states in which the bound must hold as well (all reachable by legal histories):
+//
+//	none      ordinary connection
+//	graceful  the server has begun a graceful shutdown: BaseConfig.CloseNotifyCh fired ->
+//	          goAway(NO_ERROR), GOAWAY sent, close timer armed with GracefulShutdownTimeout
+//	          (10 s here), connection fully operational meanwhile
+//	cgoaway   the client has sent GOAWAY(NO_ERROR) (bfe ignores it; the connection stays usable)
+var c37states = []string{"none", "graceful", "cgoaway"}
+
+func c37enter(t *testing.T, e *h2env, state string) {
+	switch state {
+	case "none":
+	case "graceful":
+		// h2run builds the BaseConfig itself, so the channel the serve loop selects on
+		// (sc.closeNotifyCh = opts.BaseConfig.CloseNotifyCh, read nowhere else) is installed on
+		// the serve goroutine, exactly as if it had been passed in; then it fires.
+		ch := make(chan bool)
+		if !e.onServe(func(sc *serverConn) {
+			sc.hs.GracefulShutdownTimeout = 10 * time.Second
+			sc.closeNotifyCh = ch
+		}) {
+			t.Fatalf("c37: could not install CloseNotifyCh")
+		}
+		close(ch)
+		synctest.Wait()
+		if !e.sc.inGoAway || e.sc.goAwayCode != ErrCodeNo || e.connClosed() {
+			t.Fatalf("c37: graceful shutdown not started: inGoAway=%v code=%v closed=%v", e.sc.inGoAway, e.sc.goAwayCode, e.connClosed())
+		}
+	case "cgoaway":
+		e.fr.WriteGoAway(0, ErrCodeNo, nil)
+		e.flushFrame()
+		if e.connClosed() {
+			t.Fatalf("c37: connection closed on client GOAWAY")
+		}
+	default:
+		panic("c37enter: " + state)
+	}
+}
+
+// c37rd renders reader state + connection state for signatures.
+func c37rd(stalled bool, state string) string {
+	rd := "reading"
+	if stalled {
+		rd = "stalled"
+	}
+	if state != "none" {
+		rd += "@" + state
+	}
+	return rd
+}
+
 // ---- observation + oracle ----------------------------------------------------------------------
 
 type c37obs struct {
@@ -150,8 +217,8 @@ type c37pattern struct {
 	stall int // for stall@k
 }
 
-func c37flood(t *testing.T, r *vk.Run, id, kind string, p c37pattern, n int) {
-	h2run(t, nil, false, func(e *h2env) {
+func c37flood(t *testing.T, r *vk.Run, id, kind string, p c37pattern, state string, n int) {
+	c37run(t, func(e *h2env) {
 		limit := e.srv.maxQueuedControlFrames()
 		emax := c37emax(kind)
 		e.request(1, "GET", "/s1", true)
@@ -165,6 +232,7 @@ func c37flood(t *testing.T, r *vk.Run, id, kind string, p c37pattern, n int) {
 		if _, alive := e.sc.streams[c37closedStream]; alive {
 			t.Fatalf("c37 setup: stream %d still tracked", c37closedStream)
 		}
+		c37enter(t, e, state)
 		reader := p.name
 		if p.name == "stall" {
 			switch {
@@ -197,12 +265,9 @@ func c37flood(t *testing.T, r *vk.Run, id, kind string, p c37pattern, n int) {
 			if len(e.panics) > 0 {
 				return false
 			}
-			rd := "reading"
-			if stalled {
-				rd = "stalled"
-			}
+			rd := c37rd(stalled, state)
 			bad := c37judge(r, id, "flood:"+c37class(sub), rd, limit, emax, o, func() string {
-				return fmt.Sprintf("after flood frame #%d (%s) of kind %s, reader pattern %s, stalled=%v", sent, sub, kind, reader, stalled)
+				return fmt.Sprintf("connection state %s, after flood frame #%d (%s) of kind %s, reader pattern %s, stalled=%v, no clock advance", state, sent, sub, kind, reader, stalled)
 			})
 			if o.closed {
 				closedAt = sent
@@ -232,7 +297,7 @@ func c37flood(t *testing.T, r *vk.Run, id, kind string, p c37pattern, n int) {
 				e.setStall(false)
 				stalled = false
 				o := c37observe(e)
-				c37judge(r, id, "flood:unstall", "reading", limit, emax, o, func() string {
+				c37judge(r, id, "flood:unstall", c37rd(false, state), limit, emax, o, func() string {
 					return fmt.Sprintf("after %d flood frames of kind %s under stall (%d control frames were pending) and then reading everything", sent, kind, last.q)
 				})
 				if o.closed {
@@ -255,7 +320,7 @@ func c37flood(t *testing.T, r *vk.Run, id, kind string, p c37pattern, n int) {
 				e.setStall(false)
 				stalled = false
 				o := c37observe(e)
-				c37judge(r, id, "flood:unstall", "reading", limit, emax, o, func() string {
+				c37judge(r, id, "flood:unstall", c37rd(false, state), limit, emax, o, func() string {
 					return fmt.Sprintf("after reading the burst ending at frame #%d of kind %s", sent, kind)
 				})
 				if o.closed {
@@ -295,7 +360,7 @@ func c37flood(t *testing.T, r *vk.Run, id, kind string, p c37pattern, n int) {
 		case maxQ == 0:
 			maxs = "max=0"
 		}
-		r.Outcome(fmt.Sprintf("flood:%s:%s:%s:%s", kind, reader, out, maxs))
+		r.Outcome(fmt.Sprintf("flood:%s:%s:%s:%s:%s", state, kind, reader, out, maxs))
 		if elicited > 0 {
 			r.Nontrivial(id)
 		}
@@ -329,8 +394,8 @@ func c37pings(e *h2env, n int) []byte {
 // c37exec runs one execution of family fam: preload to limit-k pending control frames with the
 // client stalled (k<0: no preload, client reading), then `depth` chosen events. noUnstall
 // removes the unstall event from the alphabet (quick tier: the client never reads again).
-func c37exec(t *testing.T, r *vk.Run, fam string, k, depth int, noUnstall bool, ch *vk.Chooser, nth int64) {
-	h2run(t, nil, false, func(e *h2env) {
+func c37exec(t *testing.T, r *vk.Run, fam string, k, depth int, noUnstall bool, state string, ch *vk.Chooser, nth int64) {
+	c37run(t, func(e *h2env) {
 		limit := e.srv.maxQueuedControlFrames()
 		const emax = 2
 		e.request(1, "POST", "/s1", false)
@@ -342,6 +407,7 @@ func c37exec(t *testing.T, r *vk.Run, fam string, k, depth int, noUnstall bool, 
 		if _, alive := e.sc.streams[c37closedStream]; alive || h1 == nil {
 			t.Fatalf("c37 setup failed")
 		}
+		c37enter(t, e, state)
 		stalled := false
 		nframe := 0
 		if k >= 0 {
@@ -354,7 +420,8 @@ func c37exec(t *testing.T, r *vk.Run, fam string, k, depth int, noUnstall bool, 
 			e.clientBytes(c37pings(e, limit-k))
 			if o := c37observe(e); o.q != limit-k || o.closed {
 				// not a verdict about the property: the harness could not reach its start state
-				if c37judge(r, fam+"|preload", fam, "preload", limit, emax, o, func() string { return "after the preload" }) {
+				if c37judge(r, ch.CaseID(fam), "order:preload", c37rd(true, state), limit, emax, o, func() string { return "family " + fam + ", right after the preload" }) {
+					r.Case(ch.CaseID(fam))
 					return
 				}
 				t.Fatalf("c37 preload: pending=%d counter=%d closed=%v, want %d", o.q, o.ctr, o.closed, limit-k)
@@ -417,14 +484,12 @@ func c37exec(t *testing.T, r *vk.Run, fam string, k, depth int, noUnstall bool, 
 				break
 			}
 			o := c37observe(e)
-			rd := "reading"
-			if stalled {
-				rd = "stalled"
-			}
+			rd := c37rd(stalled, state)
 			id := fam + "|trace:" + ch.TraceString()
 			// signature: the event that crossed the line + reader state (not the family: the same
 			// root cause shows in every family); the execution ends at its first violation
-			if c37judge(r, id, "order:"+c37class(ev.name), rd, limit, emax, o, func() string { return fmt.Sprintf("family %s (preload limit-%d), after events %v", fam, k, hist) }) {
+			if c37judge(r, id, "order:"+c37class(ev.name), rd, limit, emax, o, func() string { return fmt.Sprintf("family %s (connection state %s, preload limit-%d), after events %v, no clock advance", fam, state, k, hist)
+			}) {
 				violated = true
 				r.Outcome("order:" + fam + ":violation")
 				break
@@ -466,93 +531,118 @@ func TestVerifC37(t *testing.T) {
 	r.Set("limit", limit)
 
 	// ---- part (a)
-	// quick: every flood kind x {reads everything, stall@0, stall@limit-1}; thorough adds stall@1,
-	// upto, bursts and the longer reading flood. In replay mode every case id is reachable.
+	// quick: every flood kind x {reads everything, stall@0, stall@limit-1} on an ordinary
+	// connection, and x {reads everything, stall@0} in the states graceful / cgoaway; thorough:
+	// every kind x all six reader patterns x all three states. In replay mode every case id is
+	// reachable.
 	kinds := []string{"ping", "settings", "rst0", "wurst", "hdr", "mix"}
 	all := r.Thorough() || r.Replaying()
-	pats := []c37pattern{{"read", 0}, {"stall", 0}, {"stall", limit - 1}}
-	if all {
-		pats = []c37pattern{{"read", 0}, {"stall", 0}, {"stall", 1}, {"stall", limit - 1}, {"upto", 0}, {"bursts", 0}}
+	type floodCase struct {
+		kind  string
+		p     c37pattern
+		state string
+	}
+	var cases []floodCase
+	for _, state := range c37states {
+		pats := []c37pattern{{"read", 0}, {"stall", 0}}
+		if state == "none" {
+			pats = append(pats, c37pattern{"stall", limit - 1})
+		}
+		if all {
+			pats = []c37pattern{{"read", 0}, {"stall", 0}, {"stall", 1}, {"stall", limit - 1}, {"upto", 0}, {"bursts", 0}}
+		}
+		for _, kind := range kinds {
+			for _, p := range pats {
+				cases = append(cases, floodCase{kind, p, state})
+			}
+		}
 	}
 	// vk.ExploreSharded hashes the first two choices of part (b) onto shards very unevenly for a
 	// 6/7-event alphabet and 16 shards (the middle shards get nothing, shard 0 the most): the
-	// flood cases go to the shards that part (b) leaves idle. (Any assignment is a partition.)
+	// flood cases go preferably to the shards that part (b) leaves idle. (Any assignment is a
+	// partition.) Weights: shards 7-9 x4, 6/10 x3, 5/11 x2, 4/12 x1.
 	var floodShard []int
-	if all {
-		for _, g := range []struct {
-			n  int
-			sh []int
-		}{{6, []int{7, 8, 9}}, {4, []int{6, 10}}, {3, []int{5, 11}}, {2, []int{4, 12}}} {
-			for i := 0; i < g.n; i++ {
-				floodShard = append(floodShard, g.sh...)
-			}
+	for _, g := range []struct {
+		n  int
+		sh []int
+	}{{4, []int{7, 8, 9}}, {3, []int{6, 10}}, {2, []int{5, 11}}, {1, []int{4, 12}}} {
+		for i := 0; i < g.n; i++ {
+			floodShard = append(floodShard, g.sh...)
 		}
-	} else {
-		// 18 cases, 2 per shard; the j-th pattern of a kind lands on a different shard each time
-		floodShard = []int{7, 8, 9, 6, 10, 5, 11, 4, 12, 8, 9, 7, 10, 6, 11, 5, 12, 4}
 	}
-	ncase := -1
-	for _, kind := range kinds {
-		for _, p := range pats {
-			ncase++
-			idx := floodShard[ncase%len(floodShard)]
-			n := limit + 2
-			switch p.name {
-			case "read":
-				n = r.Pick(limit+2, 3*limit+2)
-			case "stall":
-				n = limit + 10 // frames after the stall point (the mix needs a few more than limit+2)
-			case "upto":
-				n = limit + 2
-			case "bursts":
-				n = 2*limit + 66
-			}
-			id := fmt.Sprintf("flood|%s|%s", kind, p.name)
-			if p.name == "stall" {
-				id = fmt.Sprintf("flood|%s|stall@%d", kind, p.stall)
-			}
-			if !r.Replaying() && !r.Mine(idx) {
-				continue
-			}
-			if r.Expired("c37 floods") {
-				break
-			}
-			if !r.Case(id) {
-				continue
-			}
-			c37flood(t, r, id, kind, p, n)
-			r.States(1)
-			r.Traces(1)
+	for ncase, fc := range cases {
+		kind, p, state := fc.kind, fc.p, fc.state
+		idx := floodShard[ncase%len(floodShard)]
+		n := limit + 2
+		switch p.name {
+		case "read":
+			n = r.Pick(limit+2, 3*limit+2)
+		case "stall":
+			n = limit + 10 // frames after the stall point (the mix needs a few more than limit+2)
+		case "upto":
+			n = limit + 2
+		case "bursts":
+			n = 2*limit + 66
 		}
+		id := fmt.Sprintf("flood|%s|%s", kind, p.name)
+		if p.name == "stall" {
+			id = fmt.Sprintf("flood|%s|stall@%d", kind, p.stall)
+		}
+		if state != "none" {
+			id += "|" + state
+		}
+		if !r.Replaying() && !r.Mine(idx) {
+			continue
+		}
+		if r.Expired("c37 floods") {
+			break
+		}
+		if !r.Case(id) {
+			continue
+		}
+		c37flood(t, r, id, kind, p, state, n)
+		r.States(1)
+		r.Traces(1)
 	}
 
 	// ---- part (b)
-	// quick: the preload families explore only orders WITHOUT unstall (pre3q/pre1q: the client
-	// stays stalled, so the 0.2 s drain of a full queue never runs); thorough explores the full
-	// alphabet incl. unstall/stall (pre3/pre1). Different names because the event indices differ.
+	// quick: the preload families explore only orders WITHOUT unstall (names ending in q: the
+	// client stays stalled, so the 0.1-0.3 s drain of a full queue never runs); thorough explores
+	// the full alphabet incl. unstall/stall. Suffix g / c = connection state graceful / cgoaway.
+	// Different names because the event indices differ. Cheapest family first: if the wall-clock
+	// budget expires on a loaded machine, only the most expensive family is cut short.
 	type fam struct {
 		name      string
 		k         int
 		depth     int
 		noUnstall bool
+		state     string
+	}
+	quickF := []fam{
+		{"fresh", -1, 5, false, "none"}, {"freshg", -1, 4, false, "graceful"},
+		{"pre1q", 1, 3, true, "none"}, {"pre1qg", 1, 3, true, "graceful"}, {"pre1qc", 1, 3, true, "cgoaway"},
+		{"pre3q", 3, 4, true, "none"},
+	}
+	thorF := []fam{
+		{"fresh", -1, 7, false, "none"}, {"freshg", -1, 6, false, "graceful"},
+		{"pre1", 1, 5, false, "none"}, {"pre1g", 1, 5, false, "graceful"}, {"pre1c", 1, 4, false, "cgoaway"},
+		{"pre3g", 3, 5, false, "graceful"}, {"pre3", 3, 6, false, "none"},
 	}
 	var fams []fam
 	switch {
 	case r.Replaying():
-		fams = []fam{{"pre3q", 3, 4, true}, {"pre1q", 1, 3, true}, {"pre3", 3, 6, false}, {"pre1", 1, 5, false}, {"fresh", -1, 7, false}}
+		fams = append(append(fams, quickF[1:]...), thorF...)
 	case r.Thorough():
-		// cheapest family first: if the wall-clock budget expires on a loaded machine, only the
-		// most expensive family (pre3: a 0.1-0.3 s drain per unstall) is cut short
-		fams = []fam{{"fresh", -1, 7, false}, {"pre1", 1, 5, false}, {"pre3", 3, 6, false}}
+		fams = thorF
 	default:
-		fams = []fam{{"fresh", -1, 5, false}, {"pre1q", 1, 3, true}, {"pre3q", 3, 4, true}}
+		fams = quickF
 	}
 	for _, f := range fams {
 		complete := true
 		var nth int64
 		n := vk.ExploreSharded(r, f.name, 2, -1, func(ch *vk.Chooser) {
 			nth++
-			c37exec(t, r, f.name, f.k, f.depth, f.noUnstall, ch, nth)
+			c37exec(t, r, f.name, f.k, f.depth, f.noUnstall, f.state, ch, nth)
 		}, func() bool {
 			if r.Expired("c37 " + f.name) {
 				complete = false
@@ -563,7 +653,7 @@ func TestVerifC37(t *testing.T) {
 		r.Traces(n)
 		r.States(n)
 		if !r.Replaying() {
-			r.Set("family_"+f.name, fmt.Sprintf("preload limit-%d, depth %d, unstall events %v, complete=%v", f.k, f.depth, !f.noUnstall, complete))
+			r.Set("family_"+f.name, fmt.Sprintf("state %s, preload limit-%d, depth %d, unstall events %v, complete=%v", f.state, f.k, f.depth, !f.noUnstall, complete))
 		}
 	}
 }
